@@ -69,6 +69,23 @@ Theorem C07fn_sum_split_invariant_refuted :
 Proof. exact sum_split_invariant_refuted. Qed.
 Print Assumptions C07fn_sum_split_invariant_refuted.
 
+(* SUM(UInt64) -> Int128 (a40c65193): the checked i128 instance; with u64 inputs the accumulator cannot
+   overflow below 2^63 rows, so every plan over at most 2^63 rows is exact and equals the sequential run *)
+Theorem C07fn_sum_u64_never_wrong : never_wrong sum_u64 spec_sum eq /\ state_determined sum_u64.
+Proof. exact sum_u64_never_wrong. Qed.
+Print Assumptions C07fn_sum_u64_never_wrong.
+
+Theorem C07fn_sum_u64_exact : forall t xs,
+  Permutation (nn (flatten t)) (nn xs) -> Forall is_u64 (nn xs) -> (zlen (nn xs) <= 2 ^ 63)%Z ->
+  run_tree sum_u64 t = run_chunk sum_u64 xs /\ result_tree sum_u64 t = Ok (spec_sum (nn xs)).
+Proof. exact sum_u64_exact. Qed.
+Print Assumptions C07fn_sum_u64_exact.
+
+Theorem C07fn_u64_hypotheses_satisfiable :
+  Forall is_u64 [(2 ^ 64 - 1)%Z; (2 ^ 63)%Z; 0%Z] /\ (zlen [(2 ^ 64 - 1)%Z; (2 ^ 63)%Z; 0%Z] <= 2 ^ 63)%Z.
+Proof. exact u64_hypotheses_satisfiable. Qed.
+Print Assumptions C07fn_u64_hypotheses_satisfiable.
+
 Theorem C07fn_sum_float :
   fold_correct sum_f spec_sum_f fres_eq /\ split_invariant sum_f /\ merge_homomorphism sum_f /\
   empty_neutral sum_f /\ total sum_f.
@@ -81,6 +98,20 @@ Theorem C07fn_avg_int :
   empty_neutral avg_i /\ total avg_i.
 Proof. exact avgi_all. Qed.
 Print Assumptions C07fn_avg_int.
+
+(* AVG(UInt64) (a40c65193): AvgStateF64 with an i128 sum; the native `+=` stays inside i128 for every plan over
+   at most 2^63 u64 rows, which justifies the unbounded accumulator of the model *)
+Theorem C07fn_avg_u64 :
+  fold_correct avg_u64 spec_avg_i fres_eq /\ split_invariant avg_u64 /\ merge_homomorphism avg_u64 /\
+  empty_neutral avg_u64 /\ total avg_u64.
+Proof. exact avg_u64_all. Qed.
+Print Assumptions C07fn_avg_u64.
+
+Theorem C07fn_avg_u64_accumulator_in_range : forall t s c,
+  Forall is_u64 (nn (flatten t)) -> (zlen (nn (flatten t)) <= 2 ^ 63)%Z ->
+  run_tree avg_u64 t = Ok (s, c) -> in_i 128 s = true /\ c = zlen (nn (flatten t)).
+Proof. exact avg_u64_accumulator_in_range. Qed.
+Print Assumptions C07fn_avg_u64_accumulator_in_range.
 
 Theorem C07fn_avg_float :
   fold_correct avg_f spec_avg_f fres_eq /\ split_invariant avg_f /\ merge_homomorphism avg_f /\
